@@ -263,6 +263,7 @@ let check (b : block) : verdict list =
     let older_edits = ref [] in
     let prev_circ = ref None in
     let strategies = ref [] in
+    let hist_es : ((bool * int list) list * string) list ref = ref [] in   (* (edit, strategy), most recent first *)
     List.iter (fun (s : step) ->
         let st = List.hd !hist in
         let ctx = Printf.sprintf "step %d [%s]" s.k
@@ -388,7 +389,18 @@ let check (b : block) : verdict list =
               (* the exact inverse of an OLDER edit of this history (other edits in between) *)
               let inverse_of_older =
                 List.exists (fun p -> e <> [] && List.sort compare (List.map (fun (a, c) -> (not a, c)) p) = e) !older_edits in
-              if strat = "Undo" && not is_inverse && inverse_of_older then Some "edit:undo-stale"
+              (* K34 is about older entries surviving edits that leave NO entry of their own (unit
+                 edits, ignored edits); an older entry that survives an edit which pushed its own
+                 entry (sub-DAG replacement, recompile, undo) is a different defect *)
+              let between_left_entry =
+                let inv p = e <> [] && List.sort compare (List.map (fun (a, c) -> (not a, c)) p) = e in
+                let rec go acc = function
+                  | [] -> false
+                  | (p, s) :: r -> if acc <> [] && inv p then List.exists (fun s' -> List.mem s' ["SubDAGReplacement"; "Recompile"; "Undo"]) acc
+                    else go (s :: acc) r in
+                go [] !hist_es in
+              if strat = "Undo" && not is_inverse && inverse_of_older && between_left_entry then Some "edit:undo-stale-after-entry"
+              else if strat = "Undo" && not is_inverse && inverse_of_older then Some "edit:undo-stale"
               else if strat = "Undo" && not is_inverse then Some "edit:undo-partial-match"
               else if earlier_undo then Some "edit:after-undo-stale-cnf"
               else if rmvs <> [] && unit_reducible cls then Some "edit:clause-removal"
@@ -442,6 +454,7 @@ let check (b : block) : verdict list =
           (match !prev_edit with Some p when e <> [] -> older_edits := p :: !older_edits | _ -> ());
           if e <> [] then prev_edit := Some e;
           strategies := strat :: !strategies;
+          hist_es := (e, strat) :: !hist_es;
           (* ---------------- model: unit_edit ---------------- *)
           (match strat, op_add, !prev_circ, s.circ with
            | "UnitClause", [[l]], Some pc, Some c ->
